@@ -37,6 +37,10 @@ type Case struct {
 	Between [][][]byte `json:"between"`
 	// SyncBeforeSave: the saver's Sync() is called between prepare and save (dragonboat's concurrent save does prepare, Sync, save)
 	SyncBeforeSave bool `json:"sync_before_save"`
+	// Second: ANOTHER snapshot of the saver is prepared after the writes that follow the first prepare (a leader serving two lagging
+	// peers; the raft library's periodic snapshot) and is "abandoned" (closed without ever being saved) or "saved-first", before the
+	// first one is saved: prepared snapshots of one replica do not disturb each other (seeded change C08-M: closing one removed them all)
+	Second string `json:"second,omitempty"`
 	// Recv: the receiver's own, unrelated history (its own log).
 	Recv     [][][]byte `json:"recv"`
 	RecvSync bool       `json:"recv_sync"` // receiver syncs its own state before the install
@@ -143,6 +147,7 @@ func genCase(t *rapid.T) Case {
 		RecvSync:  rapid.Bool().Draw(t, "recvsync"),
 	}
 	c.SyncBeforeSave = rapid.Bool().Draw(t, "syncbeforesave")
+	c.Second = rapid.SampledFrom([]string{"", "", "", "abandoned", "saved-first"}).Draw(t, "second")
 	switch rapid.IntRange(0, 9).Draw(t, "mode") {
 	case 0, 1:
 		c.Interrupt = "stop-save"
@@ -307,6 +312,20 @@ func run(c Case, o *vt.Obs) *vt.Failure {
 		if len(c.Between) > 0 {
 			o.Label("flush-between-prepare-and-save")
 		}
+	}
+	if c.Second != "" {
+		ctx2, err := saver.r.Prepare()
+		if err != nil {
+			return vt.Failf(prop+"/prepare-error", 2, "second prepare: %v", err)
+		}
+		if c.Second == "saved-first" {
+			if _, err := saver.r.Save(ctx2, nil); err != nil {
+				return vt.Failf(prop+"/save-error", 2, "save of the snapshot prepared second: %v", err)
+			}
+		} else if cl, ok := ctx2.(interface{ Close() error }); ok {
+			_ = cl.Close()
+		}
+		o.Label("second-prepared-snapshot-" + c.Second)
 	}
 	var snap []byte
 	if c.Interrupt == "stop-save" {
